@@ -332,6 +332,12 @@ func (b *bufferedReadSeeker) Read(p []byte) (int, error) {
 	// Read from buffer.
 	readFromBuf := copy(p, b.buf[b.readHead:b.writeHead])
 	b.readHead += readFromBuf
+	if readFromBuf == len(p) {
+		// The request was served from the buffer alone. Do not consult the wrapped
+		// source: its state (such as EOF) must not be reported while buffered data
+		// that has not been replayed yet may remain.
+		return readFromBuf, nil
+	}
 	// Read from wrapped source and write to buffer.
 	readFromSource, err := b.r.Read(p[readFromBuf:])
 	written := copy(b.buf[b.writeHead:], p[readFromBuf:(readFromBuf+readFromSource)])
